@@ -260,11 +260,8 @@ def worker(ob):
                     order = sorted(range(n), key=lambda k: tv[k])
                     for pos, k in enumerate(order):
                         eps = 1e-6 * max(1.0, abs(yv[k]))
-                        bump = []
-                        for sgn in (+1, -1):
-                            nodes_b = [[tv[q], {"kind": "F64", "f64": yv[q] + (sgn * eps if q == k else 0.0)}] for q in range(n)]
-                            ob_ = native_run([{"kind": "curve", "interp": interp, "nodes": nodes_b, "id": "crv", "index_base": None, "ops": [], "queries": [xv]}], prof)[0]
-                            bump.append(ob_["steps"][0]["values"][0]["real"])
+                        # bumped values of the rule's closed form evaluated in Python (independent of the code under test)
+                        bump = [py_curve_value(interp, tv, [yv[q] + (sgn * eps if q == k else 0.0) for q in range(n)], xv) for sgn in (+1, -1)]
                         fd = (bump[0] - bump[1]) / (2 * eps)
                         if kind == "float":
                             got = jc1(fin, f"crv{pos}")
@@ -279,11 +276,7 @@ def worker(ob):
                                 if scn["names"][k] != nm:
                                     continue
                                 eps = 1e-6 * max(1.0, abs(yv[k]))
-                                bump = []
-                                for sgn in (+1, -1):
-                                    nodes_b = [[tv[q], {"kind": "F64", "f64": yv[q] + (sgn * eps if q == k else 0.0)}] for q in range(n)]
-                                    ob_ = native_run([{"kind": "curve", "interp": interp, "nodes": nodes_b, "id": "crv", "index_base": None, "ops": [], "queries": [xv]}], prof)[0]
-                                    bump.append(ob_["steps"][0]["values"][0]["real"])
+                                bump = [py_curve_value(interp, tv, [yv[q] + (sgn * eps if q == k else 0.0) for q in range(n)], xv) for sgn in (+1, -1)]
                                 fd += (bump[0] - bump[1]) / (2 * eps) * float(mval(model, scn["gs"][k]))
                             got = jc1(fin, nm)
                             if nm not in fin["vars"]:
@@ -292,13 +285,13 @@ def worker(ob):
                                 out["mismatch"].append(f"{prof}: d value / d {nm} native={got} finite difference={fd}")
                         if fin["kind"] == "Dual2" and ob["shared"]:
                             # second derivative along the shared variable by a second difference of the FIRST-order native gradient
-                            def grad_at(shift):
-                                nodes_b = [[tv[q], {"kind": "Dual", "real": yv[q] + shift * float(mval(model, scn["gs"][q])) + shift * shift * float(mval(model, scn["hs"][q])) * (1 if scn["nodes_kind"] == "Dual2" and not any(s_["order"] in ("One", "Zero") for s_ in sc["ops"]) else 0),
-                                                        "vars": [5], "dual": [float(mval(model, scn["gs"][q])) + 2 * shift * float(mval(model, scn["hs"][q])) * (1 if scn["nodes_kind"] == "Dual2" and not any(s_["order"] in ("One", "Zero") for s_ in sc["ops"]) else 0)]}] for q in range(n)]
-                                ob_ = native_run([{"kind": "curve", "interp": interp, "nodes": nodes_b, "id": "crv", "index_base": None, "ops": [], "queries": [xv]}], prof)[0]
-                                return jc1(ob_["steps"][0]["values"][0], "v5")
-                            e2 = 1e-5
-                            fd2 = (grad_at(e2) - grad_at(-e2)) / (2 * e2)
+                            # second derivative along the shared variable: second difference of the closed form (Python floats) along
+                            # y_q(s) = y_q + s g_q + s^2 h_q (h_q only if the second-order terms survived the switches)
+                            keep_h = 1 if scn["nodes_kind"] == "Dual2" and not any(s_["order"] in ("One", "Zero") for s_ in sc["ops"]) else 0
+                            def val_at(shift):
+                                return py_curve_value(interp, tv, [yv[q] + shift * float(mval(model, scn["gs"][q])) + shift * shift * float(mval(model, scn["hs"][q])) * keep_h for q in range(n)], xv)
+                            e2 = 1e-4
+                            fd2 = (val_at(e2) - 2 * val_at(0.0) + val_at(-e2)) / (e2 * e2)
                             got2 = jc2(fin, "v5", "v5")
                             if not close(got2, fd2, 1e-4):
                                 out["mismatch"].append(f"{prof}: d2 value / d v5^2 native={got2} finite difference={fd2}")
